@@ -88,6 +88,10 @@ def writes_in(fn: FuncInfo, aliases: Dict[str, Tuple[str, str]]):
                     depth += 1
                     b = b.value
                 d = dotted(b)
+                # `x |= {...}` / `x += [...]` updates the object x refers to IN PLACE (dict.__ior__, list.__iadd__): it is a
+                # write one level below the target expression
+                if isinstance(n, ast.AugAssign) and isinstance(n.op, (ast.BitOr, ast.Add)) and d in aliases:
+                    depth += 1
                 if d in aliases and depth >= 1:
                     out.append(("outer" if depth == 1 else "inner", d, n, src(t)))
         if isinstance(n, ast.Call) and isinstance(n.func, ast.Attribute) and n.func.attr in MUTATORS:
